@@ -52,7 +52,9 @@ pub fn inputs_of(c: &Case, spec: &GrammarSpec) -> Vec<String> {
             if ii % 3 != 1 {
                 t2.kind = 0; // sentences; every third input is a mutation (often a non-sentence)
             }
-            let toks = gen::tokens_for(&bnf, &t2, 14);
+            // every second input with a deep derivation budget (optionals inside the statements of
+            // a list are chosen at depth 7 and below)
+            let toks = if ii % 2 == 1 && t2.kind == 0 { gen::sentence_deep(&bnf, &t2, 11, 60) } else { gen::tokens_for(&bnf, &t2, 14) };
             let mut cur = Cursor::new(&tape.tape);
             gen::render_tokens(&spec.terms, &toks, if ii % 2 == 0 { LayoutStyle::Ascii } else { LayoutStyle::Minimal }, &mut cur).text
         })
@@ -201,11 +203,11 @@ fn gen_cases(seed: u64, batch: usize, ngrammars: usize) -> Vec<Case> {
     }
     // recursive type shapes: the element of a vector / optional refers back to it (boxed
     // elements, both recursion directions)
-    for g in 0..ngrammars {
+    for g in 0..ngrammars * 2 {
         let tape = gen::g_rec().new_tree(&mut runner).unwrap().current();
         let inputs = gen::tapes(8..12, 40).new_tree(&mut runner).unwrap().current();
-        let glr = g % 3 == 2;
-        v.push(Case { tape, glr, loc_info: g % 4 == 1, inputs, rec: true, rn_table: g % 3 == 1 });
+        let glr = g % 2 == 1;
+        v.push(Case { tape, glr, loc_info: g % 8 == 2, inputs, rec: true, rn_table: g % 4 == 0 });
     }
     v
 }
